@@ -19,7 +19,7 @@ import random
 import re
 
 import vlib
-from checks import brokerlib
+from checks import brokerlib, transportlib
 
 
 # ---- a tiny MQTT encoder (python side), used only to build valid packets that are then mutated
@@ -261,8 +261,13 @@ def check(run):
         raise vlib.Inconclusive("broker driver died: %s" % crashes[0][2][-2000:])
     crashed = sum(1 for ln in open(tpath) if '"op":"process.died"' in ln)
     nev, nscn, validated, rejected, tstates = brokerlib.validate(run, "C18", scns, tpath, v)
+    # below the MQTT layer: the same broker behind its real listeners
+    tr = transportlib.check_family(run, "C18", v, thorough)
+    validated += tr["validated"]
+    tstates += tr["trace_spec_states"]
     rc = v.finish()
     vlib.write_evidence(run, {
+        "transports": tr,
         "traces_validated_against_impl": validated,
         "evaluations": len(streams),
         "distinct_nontrivial": len(streams),
@@ -283,4 +288,6 @@ def check(run):
 
 
 def replay(run, path):
+    if json.load(open(path)).get("kind") == "transport":
+        return transportlib.replay(run, "C18", path)
     return brokerlib.replay(run, "C18", path)
